@@ -128,7 +128,7 @@ class PipeReader(io.TextIOBase):
         return line
 
 
-def run_pair(spec, opts, stdin, texts, pipe_cfg, res):
+def run_pair(spec, opts, stdin, texts, pipe_cfg, res, order=None):
     """Returns (exit1, exit2, stdout2, exception) or None if not applicable."""
     import argparse
     import penman.__main__ as pm
@@ -146,9 +146,12 @@ def run_pair(spec, opts, stdin, texts, pipe_cfg, res):
     if stdin:
         stdin1 = texts[0].encode('utf-8')
     else:
+        enc = opts.get('encoding') or 'utf-8'
+        if opts.get('encoding'):
+            argv1 += ['--encoding', enc]
         for i, t in enumerate(texts):
-            fs.put(f'/sim/in{i}.penman', t.encode('utf-8'))
-            argv1.append(f'/sim/in{i}.penman')
+            fs.put(f'/sim/in{i}.penman', t.encode(enc))
+        argv1 += [f'/sim/in{i}.penman' for i in (order if order is not None else range(len(texts)))]
     pipe = Pipe(pipe_cfg.get('capacity', 16))
     S = sched.Scheduler(2, rng=Rng(pipe_cfg.get('sched_seed', 0)), p_switch=pipe_cfg.get('p_switch', 0.02))
     local = threading.local()
